@@ -1662,6 +1662,8 @@ def section_setitem(env, ctx, model):
             x[k] = v
             return x
 
+        if it % 2 == 0:
+            x.dtype, x.shape, x.size  # attributes read before the assignment must not be remembered
         before = list(x.arrays)
         impl = impl_call(do, [], {})
         ctx.case({"section": "setitem", "n": n, "k": k, "value": vtag}, ("setitem", n, k, vtag))
@@ -1697,6 +1699,106 @@ def section_setitem(env, ctx, model):
             ctx.disagree("block.setitem", {"section": "setitem", "n": n, "k": k, "value": vtag, "dtype": str(np.dtype(d0))},
                          fail["result_blocks"], show(env, m, ev) if m[0] == "ok" else {"err": m[1]},
                          oracle=(lambda c, fail=fail: fail) if broken else None)
+
+
+def section_history(env, ctx, model):
+    """history / aliasing streams on the real object (the model is a pure function of the block list, so a block array must
+    behave as one): (a) attributes read BEFORE an assignment that replaces every block by another dtype / shape must be
+    current afterwards; (b) the list a block array was built from and the block array do not share state"""
+    rng = ctx.rng
+    jnp, BA, snp = env.jnp, env.BlockArray, env.snp
+    dts = [jnp.float64, jnp.float32, jnp.int64, jnp.complex128]
+    readers = {"dtype": lambda x: x.dtype, "shape": lambda x: x.shape, "size": lambda x: x.size, "ndim": lambda x: x.ndim,
+               "len": lambda x: len(x), "op": lambda x: (x + 0).dtype, "sum": lambda x: snp.sum(x), "repr": lambda x: repr(x)}
+
+    def facts(x):
+        return {"dtype": str(x.dtype), "shape": x.shape, "size": x.size, "ndim": x.ndim, "len": len(x), "op": str((x * 1).dtype)}
+
+    def want_facts(blocks):
+        return {"dtype": str(blocks[0].dtype), "shape": tuple(b.shape for b in blocks), "size": tuple(b.size for b in blocks),
+                "ndim": tuple(b.ndim for b in blocks), "len": len(blocks), "op": str((blocks[0] * 1).dtype)}
+
+    # (a) read first, then replace all blocks
+    for it in range(ctx.n(40, 300)):
+        n = int(rng.integers(1, 4))
+        d0, d1 = [dts[int(i)] for i in rng.permutation(4)[:2]]
+        x = BA([jnp.arange(i + 2).astype(d0) for i in range(n)])
+        reads = [k for k in readers if rng.random() < 0.5]
+        if it % 4 == 0:
+            reads = ["dtype"] if it % 8 == 0 else ["shape", "size", "dtype"]
+        for k in reads:
+            readers[k](x)
+        m = n if rng.random() < 0.6 else int(rng.integers(1, 4))
+        new = [jnp.ones((j + 1, 2)).astype(d1) for j in range(m)]
+        how = ["slice-list", "slice-block", "one-by-one"][int(rng.integers(0, 3))]
+        if how == "one-by-one" and n != 1:
+            how = "slice-list"
+        try:
+            if how == "slice-list":
+                x[:] = list(new)
+            elif how == "slice-block":
+                x[:] = BA(new)
+            else:
+                new = new[:1]
+                x[0] = new[0]
+            got, outcome = facts(x), "ok"
+        except Exception as e:  # noqa: BLE001
+            got, outcome = None, common.err_kind(e)
+        ctx.case({"section": "history", "stream": "read-then-replace", "reads": reads, "how": how, "n": n}, ("history", tuple(reads), how, n, str(np.dtype(d0)), str(np.dtype(d1))))
+        ctx.count(f"history:read-then-replace:{how}:{outcome}")
+        want = want_facts(new)
+        if got != want:
+            fail = {"history": [f"x = BlockArray({n} blocks of {np.dtype(d0)})"] + [f"read x.{k}" if k in ("dtype", "shape", "size", "ndim") else f"evaluate {k}(x)" for k in reads]
+                    + [{"slice-list": "x[:] = [new arrays]", "slice-block": "x[:] = BlockArray(new arrays)", "one-by-one": "x[0] = new array"}[how] + f" ({len(new)} blocks of {np.dtype(d1)})"],
+                    "then": got if got is not None else {"err": outcome}, "expected (from the blocks)": want}
+            ctx.disagree("block.history", {"section": "history", "stream": "read-then-replace", "reads": reads, "how": how, "n": n, "d0": str(np.dtype(d0)), "d1": str(np.dtype(d1))},
+                         fail["then"], want, oracle=lambda c, fail=fail: fail)
+    # (b) argument aliasing
+    for it in range(ctx.n(30, 200)):
+        n = int(rng.integers(1, 4))
+        d0 = dts[int(rng.integers(0, 4))]
+        src = [jnp.arange(i + 1).astype(d0) for i in range(n)]
+        ctor = ["BlockArray(list)", "snp.blockarray(list)", "BlockArray(tuple)"][int(rng.integers(0, 3))]
+        arg = tuple(src) if ctor.endswith("(tuple)") else src
+        x = snp.blockarray(arg) if ctor.startswith("snp") else BA(arg)
+        snap = list(x.arrays)
+        mut = ["replace-other-dtype", "append", "clear", "delete", "reverse", "assign-through-x", "slice-assign-through-x"][int(rng.integers(0, 7))]
+        src_before = list(src)
+        problem = None
+        try:
+            if mut == "replace-other-dtype":
+                src[0] = jnp.ones(5).astype(dts[(dts.index(d0) + 1) % 4])
+            elif mut == "append":
+                src.append(jnp.ones(2).astype(d0))
+            elif mut == "clear":
+                src.clear()
+            elif mut == "delete":
+                del src[-1]
+            elif mut == "reverse":
+                src.reverse()
+            elif mut == "assign-through-x":
+                x[0] = jnp.full((3,), 7).astype(d0)
+                snap = list(x.arrays)
+            else:
+                x[:] = [jnp.full((3,), 7).astype(d0)]
+                snap = list(x.arrays)
+            if mut.endswith("through-x"):
+                if len(src) != len(src_before) or any(a is not b for a, b in zip(src, src_before)):
+                    problem = "the caller's list was changed by assigning through the block array"
+            else:
+                if len(x.arrays) != len(snap) or any(a is not b for a, b in zip(x.arrays, snap)):
+                    problem = "the block array changed when the caller's list was mutated"
+                elif facts(x) != want_facts(snap):
+                    problem = "attributes of the block array no longer describe its blocks"
+        except Exception as e:  # noqa: BLE001
+            problem = f"raised {type(e).__name__}"
+        ctx.case({"section": "history", "stream": "argument-aliasing", "ctor": ctor, "mutation": mut, "n": n}, ("history-alias", ctor, mut, n, str(np.dtype(d0))))
+        ctx.count(f"history:argument-aliasing:{mut}:{'ok' if problem is None else 'shared'}")
+        if problem:
+            fail = {"history": [f"L = {n} jax arrays of {np.dtype(d0)}", f"x = {ctor.replace('list', 'L').replace('tuple', 'tuple(L)')}", f"mutation: {mut}"], "violates": problem,
+                    "blocks_of_x": [str(b.shape) + ":" + str(b.dtype) for b in x.arrays], "caller_list": [str(b.shape) + ":" + str(b.dtype) for b in src]}
+            ctx.disagree("block.history", {"section": "history", "stream": "argument-aliasing", "ctor": ctor, "mutation": mut, "n": n}, fail["blocks_of_x"], "independent of the caller's list",
+                         oracle=lambda c, fail=fail: fail)
 
 
 def same_or_identical(a, b):
@@ -1907,7 +2009,7 @@ def correspond(ctx, model):
     env = Env()
     timing = {}
     # the sections that evaluate the property itself on small objects come first: at most 5 violations are written out
-    for sec in (run_corpus, section_setitem, section_transparency, section_trees, section_names, section_reductions, section_creation,
+    for sec in (run_corpus, section_history, section_setitem, section_transparency, section_trees, section_names, section_reductions, section_creation,
                 section_operators, section_nonlifted, section_methods, section_slices, section_setslice, section_wrappers, section_pytree, section_random):
         t0 = time.time()
         try:
